@@ -93,7 +93,8 @@ def _impl(tier, seed, search):
             if not isinstance(Rs, np.ndarray): L.check('trinterp-R', False, dict(R0=R0, R1=R1, s=s), 'trinterp on 3x3 matrices did not return a matrix', sig='trinterp-R:not-matrix')
             else: either_arc('trinterp-R:constant-rate', Rs, R0, ax, th, s, dict(R0=R0, R1=R1, s=s))
         # out-of-range s rejected
-        for sbad in (-10.0 ** g.uniform(-9, 0), 1 + 10.0 ** g.uniform(-9, 0)):
+        for sbad in (-10.0 ** g.uniform(-9, 0), 1 + 10.0 ** g.uniform(-9, 0), -10.0 ** g.uniform(-15, -9), 1 + 10.0 ** g.uniform(-15, -9),
+                     float(np.nextafter(1.0, 2.0)), float(np.nextafter(0.0, -1.0)), -1e-300):
             L.raises('trinterp:range', lambda: b.trinterp(T0, T1, sbad), dict(s=sbad), 'trinterp must reject s outside [0,1]')
             L.raises('slerp:range', lambda: b.slerp(inputs.unitq(g), inputs.unitq(g), sbad), dict(s=sbad), 'slerp must reject s outside [0,1]')
             L.raises('UQ.interp:range', lambda: UnitQuaternion(inputs.unitq(g)).interp(sbad, UnitQuaternion(inputs.unitq(g))), dict(s=sbad), 'UnitQuaternion.interp must reject s outside [0,1]')
